@@ -768,3 +768,38 @@ fn full_roundtrip_via_parse<const PL: usize, const PAD: u8, const N: usize>(prof
 #[kani::proof]
 #[kani::unwind(30)]
 fn c04_full_roundtrip_via_parse_sha80_p2_pad2() { full_roundtrip_via_parse::<2, 2, 26>(SrtpProfile::Aes128Sha1_80); }
+
+// ---- thorough-tier shapes: CSRC + header extension + larger payload
+fn roundtrip_rich_header<const PL: usize, const N: usize>(profile: SrtpProfile) {
+    let ak = [0x5au8; 20];
+    let mut tx = ctx_cm(profile, &ak, [0x11; 16]);
+    let mut rx = ctx_cm(profile, &ak, [0x11; 16]);
+    rx.ssrc = tx.ssrc; rx.rtp_keys.salt = tx.rtp_keys.salt.clone();
+    rx.rollover_counter = tx.rollover_counter; rx.last_sequence = tx.last_sequence;
+    kani::assume(well_formed(&tx) && well_formed(&rx));
+    let pl: [u8; PL] = kani::any();
+    let e: [u8; 4] = kani::any();
+    let mut h = RtpHeader::new(kani::any::<u8>() & 0x7f, kani::any(), kani::any(), kani::any());
+    h.marker = kani::any();
+    h.csrcs.push(kani::any());
+    h.extension = Some(crate::rtp::RtpHeaderExtension { profile: 0xBEDE, data: static_bytes_of(e) });
+    let pkt = RtpPacket { header: h.clone(), payload: static_bytes_of(pl), padding_len: 0 };
+    let mut out = [0u8; N];
+    assert!(tx.protected_rtp_len(&pkt) == N && N == 12 + 4 + 8 + PL + 10);
+    tx.protect(&pkt, &mut out[..]).unwrap();
+    // header image: fixed part, CSRC, extension block in clear
+    assert!(out[0] == 0x91 && out[12..16] == h.csrcs[0].to_be_bytes() && out[16..20] == [0xBE, 0xDE, 0x00, 0x01] && out[20..24] == e);
+    let sp = SrtpPacket { header: h, body: BytesMut::from(&out[24..]), has_padding: false };
+    let got = rx.unprotect(sp).unwrap();
+    assert!(got.header == pkt.header && got.payload[..] == pl[..] && got.padding_len == 0);
+    core::mem::forget(got); core::mem::forget(pkt);
+}
+#[kani::proof]
+#[kani::unwind(40)]
+fn c04_roundtrip_sha80_csrc1_ext4_p4() { roundtrip_rich_header::<4, 38>(SrtpProfile::Aes128Sha1_80); }
+#[kani::proof]
+#[kani::unwind(30)]
+fn c04_roundtrip_sha80_p8() { roundtrip_obligation::<8, 0, 30>(SrtpProfile::Aes128Sha1_80); }
+#[kani::proof]
+#[kani::unwind(30)]
+fn c04_roundtrip_sha32_p4_pad4() { roundtrip_obligation::<4, 4, 24>(SrtpProfile::Aes128Sha1_32); }
